@@ -117,7 +117,21 @@ package main
 //@   assert before allocateIPs#1: [cleared] c.ips.allocated[key] == nil
 //@   assert after allocateIPs#1: [rec7] ret1 == nil ==> c.ips.allocated[key] != nil && sameSlice(c.ips.allocated[key].ips, ret0)
 //@   assert before Pool#3: [rec8] c.ips.allocated[key] != nil && len(c.ips.allocated[key].ips) == len(lbIPs) && (forall j int :: 0 <= j && j < len(lbIPs) ==> sameSlice(c.ips.allocated[key].ips[j], lbIPs[j]))
+// an allocation is released only for one of the reasons in the statement (C03: "every Service whose recorded
+// addresses are still admissible keeps exactly those addresses"): not a LoadBalancer, no configuration, no cluster
+// addresses / family mismatch, no recorded address, the configuration refuses the recorded address, or the user asked
+// for another pool / other addresses
+//@   assert before clearServiceState#1: [whyNotLB] svc.Spec.Type != v1.ServiceTypeLoadBalancer
+//@   assert before clearServiceState#2: [whyNoConfig] len(c.pools.ByName) == 0
+//@   assert before clearServiceState#3: [whyNoClusterIP] len(svc.Spec.ClusterIPs) == 0 && svc.Spec.ClusterIP == ""
+//@   assert before clearServiceState#4: [whyNotDual] familyPolicy == v1.IPFamilyPolicyRequireDualStack && len(svc.Spec.ClusterIPs) < 2
+//@   assert before clearServiceState#5: [whyNoStatus] forall j int :: 0 <= j && j < len(svc.Status.LoadBalancer.Ingress) ==> svc.Status.LoadBalancer.Ingress[j].IP == ""
+//@   assert before clearServiceState#6: [whyFamily] lbIPsIPFamily == ipfamily.Unknown || (lbIPsIPFamily != clusterIPsIPFamily && !(clusterIPsIPFamily == ipfamily.DualStack && familyPolicy == v1.IPFamilyPolicyPreferDualStack))
+//@   assert before clearServiceState#7: [whyRefused] err != nil
+//@   assert before clearServiceState#8: [whyOtherPool] valueForAnnotationSpec(svc) != "" && c.ips.allocated[key] != nil && c.ips.allocated[key].pool != valueForAnnotationSpec(svc)
+//@   assert before clearServiceState#9: [whyOtherIPs] len(WantIPs(svc)) > 0
 //@   loop 1 binds i
+//@   loop 1 invariant len(lbIPs) == 0 ==> (forall j int :: 0 <= j && j < iter ==> svc.Status.LoadBalancer.Ingress[j].IP == "")
 //@   loop 1 invariant lbIPs != nil && fresh(lbIPs) && lockstate(c.ips.countersMutex) == 0
 //@   loop 1 invariant forall s string :: c.ips.allocated[s] == old(c.ips.allocated[s])
 //@   loop 2 binds lbIP
